@@ -1,18 +1,70 @@
 import Mkts.Lemmas.WalReplay
 import Mkts.Extracted.Facts
+import Mkts.Extracted.Skeletons
 /-!
 # C06 — WAL replay tolerates arbitrary damage to the log
 
 Model: `Mkts.WalReplay.scan` (first pass of `Replay`), `secondPass`, `replay`, `cleanup`
 (`CleanupOldWALFiles` for one file).  The checksum function `md5` is an arbitrary parameter in every
-theorem.  Proved for all byte strings: the scanner terminates, only checksum-valid records are ever
-applied.  The "never panics / keeps applying what precedes the damage" half is false of the code:
-counterexample theorems, and `C06_partial` with the excluded classes as hypotheses.
+theorem.
+
+After the repairs of C06-F6 (group length below 8 bytes), C06-F6b (unreadable records filed under
+id 0) and C06-F6c (`wal.ReadStatus` at end of file) the first pass is proved, for ALL byte strings, to
+terminate, to end without a panic, to keep only checksum-valid records, and to read over every kind
+of damage it can meet (unreadable records, insane lengths, unknown bytes, any cut point, zero or
+garbage tails) keeping exactly the intact groups.  The statements of the source these theorems rest
+on are pinned over the regenerated skeletons (`skel_*`).
+
+Still false of the code (second pass and by-design checks): a checksum-valid group whose inner
+lengths overrun panics in `ParseTGData` (C06-F6d), a duplicated record or a forged checkpoint record
+makes replay drop intact groups (C06-F6e, F6f): `C06_full`, `C06_full_append` with counterexamples,
+`C06_partial` with the excluded class as hypothesis.
 -/
 namespace Mkts.Props.C06
 open Mkts.Bytes Mkts.WalCodec Mkts.WalReplay
 
-/-! ## totality: the scan loop cannot run forever -/
+/-! ## the statements of the source the model depends on (regenerated on every run) -/
+
+/-- `readTGData`: the length is tested against `tgIDBytes` (short read) before the sanity check and
+before any allocation or slicing -/
+theorem skel_readTGData :
+    Mkts.Extracted.Skel.executor_WALFileType_readTGData =
+      ["call:wal.Read", "if:err != nil{", "call:io.GetCallerFileContext", "return", "}", "call:io.ToInt64",
+       "if:tgLen < tgIDBytes{", "call:io.GetCallerFileContext", "call:fmt.Sprintf", "return", "}",
+       "call:sanityCheckValue", "if:!sanityCheckValue(wf.FilePtr, tgLen){", "call:io.GetCallerFileContext",
+       "call:fmt.Sprintf", "call:errors.New", "return", "}",
+       "call:wf.FilePtr.Read", "if:int64(n) != tgLen || err != nil{", "call:io.GetCallerFileContext", "return", "}",
+       "call:io.ToInt64",
+       "call:wf.FilePtr.Read", "if:n != checkSumBytes || err != nil{", "call:io.GetCallerFileContext", "return", "}",
+       "call:validateCheckSum", "if:err != nil{", "return", "}", "return"] := by decide
+
+set_option maxRecDepth 100000 in
+/-- `Replay`, TGDATA case: after `readTGData` the loop is left on a short read, an unreadable record
+is skipped (`continue`), and only then `tgData[tgID]` is assigned and the duplicate test made -/
+theorem skel_Replay_skips_unreadable :
+    hasSub Mkts.Extracted.Skel.executor_WALFileType_Replay
+      ["call:wf.readTGData", "call:fullRead", "if:!continueRead{", "break", "}",
+       "if:err != nil{", "continue", "}", "setidx:tgData", "if:ok{"] = true := by decide
+
+/-- `wal.ReadStatus` returns the read error before it indexes the buffer -/
+theorem skel_ReadStatus :
+    Mkts.Extracted.Skel.executor_wal_ReadStatus =
+      ["call:Read", "if:err != nil{", "return", "}", "call:io.ToInt64", "return"] := by decide
+
+/-- the constants of the scanner are those of the source tree -/
+theorem C06_constants_extracted :
+    (midTGDATA.toNat : Int) = Mkts.Extracted.executor_TGDATA ∧
+    (midTXNINFO.toNat : Int) = Mkts.Extracted.executor_TXNINFO ∧
+    (midSTATUS.toNat : Int) = Mkts.Extracted.executor_STATUS ∧
+    (destCHECKPOINT.toNat : Int) = Mkts.Extracted.executor_CHECKPOINT ∧
+    (statusCOMMITCOMPLETE.toNat : Int) = Mkts.Extracted.executor_COMMITCOMPLETE ∧
+    (tgLenBytes : Int) = Mkts.Extracted.executor_tgLenBytes ∧
+    (tgIDBytes : Int) = Mkts.Extracted.executor_tgIDBytes ∧
+    (checkSumBytes : Int) = Mkts.Extracted.executor_checkSumBytes ∧
+    safetyFactor = Mkts.Extracted.executor_safetyFactor ∧
+    (walStatusLenBytes : Int) = Mkts.Extracted.executor_walStatusLenBytes := by decide
+
+/-! ## totality: the first pass neither hangs nor panics -/
 
 /-- every iteration that continues consumes at least one byte of the file … -/
 theorem C06_progress (md5 : Bytes → Bytes) (fsz : Nat) (r r' : Bytes) (st st' : St)
@@ -21,6 +73,15 @@ theorem C06_progress (md5 : Bytes → Bytes) (fsz : Nat) (r r' : Bytes) (st st' 
 /-- … hence `length + 1` iterations always suffice: the first pass terminates on every input -/
 theorem C06_terminates (md5 : Bytes → Bytes) (f : Bytes) : scan md5 f ≠ .fuel :=
   scanLoop_fuel md5 f.length (f.length + 1) f {} (by omega)
+
+/-- **whatever bytes the file contains**, the first pass ends in one of two ways: normally with a
+table of groups, or with the deliberate "Duplicate TG Data" error.  There is no panic outcome. -/
+theorem C06_first_pass_total (md5 : Bytes → Bytes) (f : Bytes) :
+    (∃ st, scan md5 f = .done st) ∨ (∃ id, scan md5 f = .dup id) := by
+  cases h : scan md5 f with
+  | done st => exact Or.inl ⟨st, rfl⟩
+  | dup id => exact Or.inr ⟨id, rfl⟩
+  | fuel => exact absurd h (C06_terminates md5 f)
 
 /-! ## safety: only checksum-valid records are applied -/
 
@@ -39,14 +100,12 @@ theorem C06_safety (md5 : Bytes → Bytes) (ex : Bytes → Bool) (root f : Bytes
   split at hw
   · simp at hw
   · simp at hw
-  · simp at hw
-  · simp at hw
   · rename_i st hs
     rcases secondPass_writes ex root _ _ w hw with h | ⟨a, ha, id, sets, hp, hmem⟩
     · simp at h
     · exact ⟨a.2, id, sets, C06_safety_scan md5 f st hs a.1 a.2 (mem_pending ha), hp, hmem⟩
 
-/-- the same for the whole startup path of one file (`f'` = the file after its status header was rewritten) -/
+/-- the same for the whole startup path of one file (`patchStatus f` = the file after its status header was rewritten) -/
 theorem C06_safety_cleanup (md5 : Bytes → Bytes) (ex : Bytes → Bool) (root f : Bytes) :
     ∀ w ∈ (cleanup md5 ex root f).writes, ∃ tg id sets, ValidRecordIn md5 (patchStatus f) tg ∧
       parseTGData tg = .ok (id, sets) ∧ w ∈ setsWrites ex root sets := by
@@ -58,66 +117,72 @@ theorem C06_safety_cleanup (md5 : Bytes → Bytes) (ex : Bytes → Bool) (root f
   split at hw; · simp at hw
   exact C06_safety md5 ex root _ w hw
 
-/-- the constants of the scanner are those of the source tree -/
-theorem C06_constants_extracted :
-    (midTGDATA.toNat : Int) = Mkts.Extracted.executor_TGDATA ∧
-    (midTXNINFO.toNat : Int) = Mkts.Extracted.executor_TXNINFO ∧
-    (midSTATUS.toNat : Int) = Mkts.Extracted.executor_STATUS ∧
-    (destCHECKPOINT.toNat : Int) = Mkts.Extracted.executor_CHECKPOINT ∧
-    (statusCOMMITCOMPLETE.toNat : Int) = Mkts.Extracted.executor_COMMITCOMPLETE ∧
-    (tgLenBytes : Int) = Mkts.Extracted.executor_tgLenBytes ∧
-    (tgIDBytes : Int) = Mkts.Extracted.executor_tgIDBytes ∧
-    (checkSumBytes : Int) = Mkts.Extracted.executor_checkSumBytes ∧
-    safetyFactor = Mkts.Extracted.executor_safetyFactor ∧
-    (walStatusLenBytes : Int) = Mkts.Extracted.executor_walStatusLenBytes := by decide
+/-! ## damage tolerance of the first pass -/
 
 /-- a valid status header: STATUS, OPEN, NOTREPLAYED, owner 0x0101010101010101 -/
 def hdr : Bytes := [2, 1, 1, 1, 1, 1, 1, 1, 1, 1, 1]
 
-/-! ## truncation: every prefix of a valid WAL yields exactly its complete groups -/
+/-- the first iteration reads the 11-byte status message -/
+theorem scan_header (md5 : Bytes → Bytes) (h10 body : Bytes) (hh : h10.length = 10) :
+    scan md5 (midSTATUS :: (h10 ++ body)) =
+      scanLoop md5 (body.length + 11) (body.length + 11) body {} := by
+  have hlen : (midSTATUS :: (h10 ++ body)).length = body.length + 11 := by
+    simp only [List.length_cons, List.length_append, hh]; omega
+  unfold scan
+  rw [hlen]
+  generalize body.length + 11 = k
+  have hs : step md5 k (midSTATUS :: (h10 ++ body)) {} = .cont body {} := by
+    have c0 : midSTATUS ≠ midTGDATA := by decide
+    have c1 : midSTATUS ≠ midTXNINFO := by decide
+    have c3 : ¬ (h10 ++ body).length < walStatusLenBytes := by simp [walStatusLenBytes, hh]
+    simp only [step, c0, c1, c3, if_false, if_true]
+    rw [show walStatusLenBytes = h10.length by rw [hh]; rfl, List.drop_left]
+  simp only [scanLoop, hs]
 
-/-- Let a WAL file consist of the 11-byte status message followed by well-formed messages
-(checksummed group records with pairwise distinct ids, TXNINFO records).  Cut it at ANY length
-`n ≥ 11`: the first pass ends normally, and its `tgData` is exactly what the messages lying completely
-inside the first `n` bytes produce (groups stored, checkpointed groups dropped) — up to the
-`tgData[0] = nil` entry that a cut inside a group record leaves.  `AllOk … n` contains the one
-size condition of the code: every group is shorter than `safetyFactor × n` (see
-`C06_cex_truncated_large` for what happens otherwise). -/
+/-- **Truncation.**  Let a WAL file consist of the 11-byte status message followed by any sequence of
+messages the scanner reads over — intact group records (pairwise distinct ids), TXNINFO records,
+unreadable group records (wrong checksum), group headers with an insane length, bytes that are no
+message id.  Cut it at ANY length `n ≥ 11`: the first pass ends normally and its state is exactly
+what the messages lying completely inside the first `n` bytes produce, i.e. the intact groups among
+them, minus those a complete checkpoint record covers.  (`AllOk … n`: every intact or unreadable
+group is shorter than `safetyFactor × n`, the sanity bound of the code.) -/
 theorem C06_truncation (md5 : Bytes → Bytes) (h10 : Bytes) (hh : h10.length = 10) (ms : List Msg) (n : Nat)
     (hn : 11 ≤ n) (hn2 : n ≤ (midSTATUS :: (h10 ++ encAll md5 ms)).length) (hok : AllOk md5 n {} ms) :
-    scan md5 ((midSTATUS :: (h10 ++ encAll md5 ms)).take n) = .done ((complete md5 ms (n - 11)).foldl upd {}) ∨
-    scan md5 ((midSTATUS :: (h10 ++ encAll md5 ms)).take n) =
-      .done ((complete md5 ms (n - 11)).foldl upd {}).failedRead := by
+    scan md5 ((midSTATUS :: (h10 ++ encAll md5 ms)).take n) = .done ((complete md5 ms (n - 11)).foldl upd {}) := by
   obtain ⟨m, rfl⟩ : ∃ m, n = m + 11 := ⟨n - 11, by omega⟩
   have e : (midSTATUS :: (h10 ++ encAll md5 ms)).take (m + 11) = midSTATUS :: (h10 ++ (encAll md5 ms).take m) := by
     rw [List.take_succ_cons, List.take_append, List.take_of_length_le (by omega), hh]
     simp
-  have hlen : (midSTATUS :: (h10 ++ (encAll md5 ms).take m)).length = m + 11 := by
-    simp only [List.length_cons, List.length_append, List.length_take, hh] at hn2 ⊢
-    omega
-  rw [e]
-  unfold scan
-  rw [hlen]
-  unfold scanLoop
-  have hs : step md5 (m + 11) (midSTATUS :: (h10 ++ (encAll md5 ms).take m)) {} = .cont ((encAll md5 ms).take m) {} := by
-    have c0 : midSTATUS ≠ midTGDATA := by decide
-    have c1 : midSTATUS ≠ midTXNINFO := by decide
-    have c2 : ¬ (h10 ++ (encAll md5 ms).take m) = [] := by
-      intro h; have := congrArg List.length h; simp [hh] at this
-    have c3 : ¬ (h10 ++ (encAll md5 ms).take m).length < walStatusLenBytes := by
-      simp [walStatusLenBytes, hh]
-    simp only [step, c0, c1, c2, c3, if_false, if_true]
-    rw [show walStatusLenBytes = h10.length by rw [hh]; rfl, List.drop_left]
-  rw [hs]
+  have hl : ((encAll md5 ms).take m).length = m := by
+    simp only [List.length_cons, List.length_append, hh] at hn2
+    rw [List.length_take]; omega
+  rw [e, scan_header md5 h10 _ hh, hl]
   simp only [Nat.add_sub_cancel]
   exact scan_truncated md5 (m + 11) ms m {} (m + 11) hok (by omega)
 
-/-- the size condition of `C06_truncation` matters: a group record of 30000 bytes cut after its first
-byte fails the `1000 × file size` sanity check, the scanner goes on INSIDE the record and here panics -/
-theorem C06_cex_truncated_large (md5 : Bytes → Bytes) (ex : Bytes → Bool) (root : Bytes) :
-    (cleanup md5 ex root (hdr ++ [0] ++ le 8 30000 ++ [2])).outcome = .panic .slice := by rfl
+/-- **Damaged tail.**  The same kind of file followed by a tail at which the scanner stops — a group
+header whose length field is below 8 (zero-filled or negative, the C06-F6 class) with anything
+behind it, or a STATUS id with fewer than 10 bytes behind it (the C06-F6c class): the state is that of
+the messages before the tail, nothing is lost and nothing is added. -/
+theorem C06_damaged_tail (md5 : Bytes → Bytes) (h10 : Bytes) (hh : h10.length = 10) (ms : List Msg) (t : Bytes)
+    (ht : Stops md5 ((encAll md5 ms ++ t).length + 11) t)
+    (hok : AllOk md5 ((encAll md5 ms ++ t).length + 11) {} ms) :
+    scan md5 (midSTATUS :: (h10 ++ (encAll md5 ms ++ t))) = .done (ms.foldl upd {}) := by
+  rw [scan_header md5 h10 _ hh]
+  refine scan_then_stop md5 _ t ht ms {} _ hok ?_
+  have := length_le_encAll md5 ms
+  simp only [List.length_append]; omega
 
-/-! ## the no-panic claim is false of the code -/
+/-- a zero-filled (or otherwise too small / negative) group length stops the scan, whatever follows -/
+theorem C06_stops_small_length (md5 : Bytes → Bytes) (fsz : Nat) (lenb rest : Bytes) (hl : lenb.length = 8)
+    (h : leDecodeInt lenb < 8) : Stops md5 fsz (midTGDATA :: (lenb ++ rest)) :=
+  stops_small_length md5 fsz lenb rest hl h
+
+/-- a STATUS id at (or fewer than 10 bytes before) the end of the file stops the scan -/
+theorem C06_stops_status_tail (md5 : Bytes → Bytes) (fsz : Nat) (t : Bytes) (h : t.length < 10) :
+    Stops md5 fsz (midSTATUS :: t) := stops_status_tail md5 fsz t h
+
+/-! ## what is still false of the code: the second pass, and two checks made on purpose -/
 
 /-- full statement (first half): startup replay never panics, whatever the file contains -/
 def C06_full : Prop :=
@@ -131,30 +196,28 @@ def C06_full_append : Prop :=
     (cleanup md5 ex root f).outcome = .ok →
     ∀ w ∈ (cleanup md5 ex root f).writes, w ∈ (cleanup md5 ex root (f ++ g)).writes
 
+/-- **C06 (partial)**: startup replay of one file does not panic, provided every checksum-valid group
+that survives the first pass parses and carries write buffers of at least 8 bytes (the first pass
+itself cannot panic: `C06_first_pass_total`) -/
+theorem C06_partial (md5 : Bytes → Bytes) (ex : Bytes → Bool) (root f : Bytes)
+    (hparse : ∀ st, scan md5 (patchStatus f) = .done st → ∀ a ∈ pending st.tgData,
+      ∃ id sets, parseTGData a.2 = .ok (id, sets) ∧ ∀ s ∈ sets, 8 ≤ s.buffer.length) :
+    ∀ p, (cleanup md5 ex root f).outcome ≠ .panic p := by
+  intro p
+  unfold cleanup
+  split; · simp
+  split; · simp
+  simp only
+  split; · simp
+  unfold replay
+  split
+  · simp
+  · simp
+  · rename_i st hs
+    exact secondPass_no_panic ex root _ _ (by simp) (hparse st hs) p
 
-/-- F6: a TGDATA record announcing 3 bytes: `tgSerialized[:7]` panics (any tgLen in 0…6 does) -/
-theorem C06_cex_tglen_short (md5 : Bytes → Bytes) (ex : Bytes → Bool) (root : Bytes) :
-    (cleanup md5 ex root (hdr ++ [0] ++ le 8 3 ++ [9, 9, 9])).outcome = .panic .slice := by rfl
-
-/-- F6: … already with tgLen = 0 and nothing after it (a WAL that ends in zero bytes) -/
-theorem C06_cex_tglen_zero (md5 : Bytes → Bytes) (ex : Bytes → Bool) (root : Bytes) :
-    (cleanup md5 ex root (hdr ++ [0] ++ le 8 0)).outcome = .panic .slice := by rfl
-
-/-- F6: a negative tgLen passes the sanity check and reaches `make([]byte, tgLen)` -/
-theorem C06_cex_tglen_negative (md5 : Bytes → Bytes) (ex : Bytes → Bool) (root : Bytes) :
-    (cleanup md5 ex root (hdr ++ [0] ++ [255, 255, 255, 255, 255, 255, 255, 255])).outcome = .panic .makeslice := by rfl
-
-/-- a STATUS message id as the last byte of the file: `wal.ReadStatus` indexes a nil slice -/
-theorem C06_cex_status_eof (md5 : Bytes → Bytes) (ex : Bytes → Bool) (root : Bytes) :
-    (cleanup md5 ex root (hdr ++ [2])).outcome = .panic .slice := by rfl
-
-theorem C06_not_full : ¬ C06_full := by
-  intro h
-  exact h (fun _ => []) (fun _ => true) [] _ .slice (C06_cex_status_eof _ _ _)
-
-/-! ### counterexamples that need concrete checksums: exhibited with a toy checksum function
-(sixteen copies of the byte sum); the same byte patterns with real MD5 are replayed on the
-implementation by the corpus (`corpus/C06/known_*.ops`). -/
+/-! ### concrete inputs, with a toy checksum function (sixteen copies of the byte sum); the same
+byte patterns with real MD5 are replayed on the implementation by `corpus/C06/*.ops`. -/
 
 def toyCk (b : Bytes) : Bytes := List.replicate 16 (b.foldl (· + ·) 0)
 def rootR : Bytes := [47, 114]                                   -- "/r"
@@ -162,9 +225,6 @@ def exF (p : Bytes) : Bool := p == [47, 114, 47, 102]            -- only "/r/f" 
 def cmdF (idx : Int) : WriteCommand :=
   { recordType := 0, path := [102], varRecLen := 0, offset := 37024 + 12 * (idx - 1), index := idx,
     data := [7, 7, 7, 7], shapes := [⟨[69], 4⟩] }
-/-- a complete TGDATA record with a correct checksum -/
-def encTG (ck : Bytes → Bytes) (body : Bytes) : Bytes :=
-  midTGDATA :: (leInt 8 body.length ++ body ++ ck (leInt 8 body.length ++ body))
 /-- a complete TGDATA record whose stored checksum is wrong -/
 def encBad (ck : Bytes → Bytes) (body : Bytes) : Bytes :=
   midTGDATA :: (leInt 8 body.length ++ body ++ (ck (leInt 8 body.length ++ body)).map (· + 1))
@@ -180,134 +240,66 @@ theorem C06_example_intact :
     (cleanup toyCk exF rootR (hdr ++ good)).writes = [w5] := by decide
 
 set_option maxRecDepth 100000 in
-/-- one unreadable record after it: the intact group is still applied … -/
-theorem C06_example_one_bad_record :
-    (cleanup toyCk exF rootR (hdr ++ good ++ bad6)).outcome = .ok ∧
-    (cleanup toyCk exF rootR (hdr ++ good ++ bad6)).writes = [w5] := by decide
+/-- two unreadable records after it (was C06-F6b): the intact group is applied -/
+theorem C06_example_two_bad_records :
+    (cleanup toyCk exF rootR (hdr ++ good ++ bad6 ++ bad7)).outcome = .ok ∧
+    (cleanup toyCk exF rootR (hdr ++ good ++ bad6 ++ bad7)).writes = [w5] := by decide
 
 set_option maxRecDepth 100000 in
-/-- F6b: … two unreadable records: "Duplicate TG Data" for id 0, nothing at all is applied -/
-theorem C06_cex_two_bad_records :
-    (cleanup toyCk exF rootR (hdr ++ good ++ bad6 ++ bad7)).outcome = .moved ∧
-    (cleanup toyCk exF rootR (hdr ++ good ++ bad6 ++ bad7)).writes = [] := by decide
+/-- a zero-filled tail, a negative length, a length of 3 (was C06-F6): the intact group is applied -/
+theorem C06_example_small_lengths :
+    (cleanup toyCk exF rootR (hdr ++ good ++ List.replicate 20 0)).writes = [w5] ∧
+    (cleanup toyCk exF rootR (hdr ++ good ++ [0] ++ List.replicate 8 255)).writes = [w5] ∧
+    (cleanup toyCk exF rootR (hdr ++ good ++ [0] ++ le 8 3 ++ [9, 9, 9])).writes = [w5] ∧
+    (cleanup toyCk exF rootR (hdr ++ good ++ [0] ++ le 8 3 ++ [9, 9, 9])).outcome = .ok := by decide
 
 set_option maxRecDepth 100000 in
-/-- F6e: the same intact record twice: nothing is applied -/
+/-- a STATUS id as the last byte (was C06-F6c): the intact group is applied -/
+theorem C06_example_status_eof :
+    (cleanup toyCk exF rootR (hdr ++ good ++ [2])).outcome = .ok ∧
+    (cleanup toyCk exF rootR (hdr ++ good ++ [2])).writes = [w5] := by decide
+
+set_option maxRecDepth 100000 in
+/-- non-vacuity of `C06_truncation` / `C06_damaged_tail`: a concrete message sequence with every kind of
+message satisfies `AllOk` for a 40-byte file size -/
+example : AllOk toyCk 40 {} [.tg (serializeTG 5 [cmdF 1]), .info (leInt 8 5 ++ [0, 2]),
+    .bad (serializeTG 6 [cmdF 2]) (List.replicate 16 1), .unknown 9, .insane (le 8 40000), .tg (serializeTG 6 [cmdF 2])] := by
+  refine ⟨⟨by decide, by decide, by decide, by decide, by decide⟩,
+    ⟨by show List.length _ = 10; decide,
+     ⟨by decide, by decide, by decide, by decide, by decide⟩,
+     ⟨by decide, by decide, by decide⟩,
+     ⟨by decide, by decide, by decide⟩,
+     ⟨by decide, by decide, by decide, by decide, by decide⟩, trivial⟩⟩
+
+set_option maxRecDepth 100000 in
+/-- C06-F6e: the same intact record twice: "Duplicate TG Data", nothing is applied -/
 theorem C06_cex_duplicate_record :
     (cleanup toyCk exF rootR (hdr ++ good ++ good)).outcome = .moved ∧
     (cleanup toyCk exF rootR (hdr ++ good ++ good)).writes = [] := by decide
 
 set_option maxRecDepth 100000 in
-/-- F6d: a checksum-valid record whose body is one byte short of what its inner lengths announce -/
+/-- C06-F6d: a checksum-valid record whose body is one byte short of what its inner lengths announce -/
 theorem C06_cex_parse_panic :
     (cleanup toyCk exF rootR (hdr ++ encTG toyCk (serializeTG 5 [cmdF 1]).dropLast)).outcome = .panic .index := by
   decide
 
 set_option maxRecDepth 100000 in
-/-- non-vacuity of `C06_truncation`: a concrete message sequence (group 5, its commit record, group 6)
-satisfies `AllOk` for a 40-byte file size -/
-example : AllOk toyCk 40 {} [.tg (serializeTG 5 [cmdF 1]), .info (leInt 8 5 ++ [0, 2]), .tg (serializeTG 6 [cmdF 2])] := by
-  refine ⟨⟨by decide, by decide, by decide, by decide, by decide⟩,
-    ⟨by show List.length _ = 10; decide, ⟨by decide, by decide, by decide, by decide, by decide⟩, trivial⟩⟩
-
-set_option maxRecDepth 100000 in
-/-- F6f: TXNINFO records are not checksummed. With the commit record of group 5 (`dest = WAL`) the group
+/-- C06-F6f: TXNINFO records are not checksummed. With the commit record of group 5 (`dest = WAL`) the group
 is applied; with ONE bit of that later record flipped (`dest = CHECKPOINT`) it is silently discarded -/
 theorem C06_cex_forged_checkpoint :
     (cleanup toyCk exF rootR (hdr ++ good ++ (midTXNINFO :: (leInt 8 5 ++ [0, 2])))).writes = [w5] ∧
     (cleanup toyCk exF rootR (hdr ++ good ++ (midTXNINFO :: (leInt 8 5 ++ [1, 2])))).outcome = .ok ∧
     (cleanup toyCk exF rootR (hdr ++ good ++ (midTXNINFO :: (leInt 8 5 ++ [1, 2])))).writes = [] := by decide
 
+theorem C06_not_full : ¬ C06_full := by
+  intro h
+  exact h toyCk exF rootR _ .index C06_cex_parse_panic
+
 theorem C06_not_full_append : ¬ C06_full_append := by
   intro h
-  have h1 := h toyCk exF rootR (hdr ++ good) (bad6 ++ bad7) C06_example_intact.1 w5
+  have h1 := h toyCk exF rootR (hdr ++ good) good C06_example_intact.1 w5
     (by rw [C06_example_intact.2]; simp)
-  have e : hdr ++ good ++ (bad6 ++ bad7) = hdr ++ good ++ bad6 ++ bad7 := by simp
-  rw [e, C06_cex_two_bad_records.2] at h1
+  rw [C06_cex_duplicate_record.2] at h1
   simp at h1
-
-/-! ## what does hold: the panics have exactly these sources -/
-
-/-- a panic of the first pass is always a TGDATA record, at a position the scanner reached, whose
-length field is negative (`makeslice`) or 0…6 with that many bytes present (`slice`) -/
-theorem C06_scan_panic_classes (md5 : Bytes → Bytes) (f : Bytes) (p : Panic) (h : scan md5 f = .panic p) :
-    ∃ pre r1, f = pre ++ midTGDATA :: r1 ∧ 8 ≤ r1.length ∧
-      ((leDecodeInt (r1.take 8) < 0 ∧ p = .makeslice) ∨
-       (0 ≤ leDecodeInt (r1.take 8) ∧ leDecodeInt (r1.take 8) < 7 ∧
-        leDecodeInt (r1.take 8) ≤ (r1.length : Int) - 8 ∧ p = .slice)) := by
-  have key : ∀ (n : Nat) (r : Bytes) (st : St), (∃ pre, f = pre ++ r) →
-      scanLoop md5 f.length n r st = .panic p →
-      ∃ pre r1, f = pre ++ midTGDATA :: r1 ∧ 8 ≤ r1.length ∧
-        ((leDecodeInt (r1.take 8) < 0 ∧ p = .makeslice) ∨
-         (0 ≤ leDecodeInt (r1.take 8) ∧ leDecodeInt (r1.take 8) < 7 ∧
-          leDecodeInt (r1.take 8) ≤ (r1.length : Int) - 8 ∧ p = .slice)) := by
-    intro n
-    induction n with
-    | zero => intro r st _ h; cases h
-    | succ n ih =>
-      intro r st hpre h
-      unfold scanLoop at h
-      split at h
-      · cases h
-      · rename_i r' st' hs
-        obtain ⟨pre, hf⟩ := hpre
-        obtain ⟨p2, hr⟩ := step_cont_suffix md5 hs
-        exact ih r' st' ⟨pre ++ p2, by rw [hf, hr, List.append_assoc]⟩ h
-      · cases h
-      · rename_i p' hs
-        injection h with h; subst h
-        obtain ⟨pre, hf⟩ := hpre
-        obtain ⟨r1, hr, hl, _, hc⟩ := step_panic md5 hs
-        exact ⟨pre, r1, by rw [hf, hr], hl, hc⟩
-      · cases h
-  exact key _ f {} ⟨[], rfl⟩ h
-
-/-- the `wal.ReadStatus` panic happens only for a file that ends with a STATUS message id -/
-theorem C06_scan_statusEof (md5 : Bytes → Bytes) (f : Bytes) (h : scan md5 f = .statusEof) :
-    ∃ pre, f = pre ++ [midSTATUS] := by
-  have key : ∀ (n : Nat) (r : Bytes) (st : St), (∃ pre, f = pre ++ r) →
-      scanLoop md5 f.length n r st = .statusEof → ∃ pre, f = pre ++ [midSTATUS] := by
-    intro n
-    induction n with
-    | zero => intro r st _ h; cases h
-    | succ n ih =>
-      intro r st hpre h
-      unfold scanLoop at h
-      split at h
-      · cases h
-      · rename_i r' st' hs
-        obtain ⟨pre, hf⟩ := hpre
-        obtain ⟨p2, hr⟩ := step_cont_suffix md5 hs
-        exact ih r' st' ⟨pre ++ p2, by rw [hf, hr, List.append_assoc]⟩ h
-      · cases h
-      · cases h
-      · rename_i hs
-        obtain ⟨pre, hf⟩ := hpre
-        exact ⟨pre, by rw [hf, step_statusEof md5 hs]⟩
-  exact key _ f {} ⟨[], rfl⟩ h
-
-/-- **C06 (partial)**: startup replay of one file does not panic, provided (a) the first pass meets
-no TGDATA length field in 0…6 / negative and no STATUS id at end of file (by the two theorems above
-these are the only ways `scan` can fail), and (b) every checksum-valid group that survives the first
-pass parses and carries write buffers of at least 8 bytes -/
-theorem C06_partial (md5 : Bytes → Bytes) (ex : Bytes → Bool) (root f : Bytes)
-    (hscan : ∀ p, scan md5 (patchStatus f) ≠ .panic p) (heof : scan md5 (patchStatus f) ≠ .statusEof)
-    (hparse : ∀ st, scan md5 (patchStatus f) = .done st → ∀ a ∈ pending st.tgData,
-      ∃ id sets, parseTGData a.2 = .ok (id, sets) ∧ ∀ s ∈ sets, 8 ≤ s.buffer.length) :
-    ∀ p, (cleanup md5 ex root f).outcome ≠ .panic p := by
-  intro p
-  unfold cleanup
-  split; · simp
-  split; · simp
-  simp only
-  split; · simp
-  unfold replay
-  split
-  · simp
-  · rename_i p' hs; exact absurd hs (hscan p')
-  · rename_i hs; exact absurd hs heof
-  · simp
-  · rename_i st hs
-    exact secondPass_no_panic ex root _ _ (by simp) (hparse st hs) p
 
 end Mkts.Props.C06
